@@ -40,6 +40,20 @@ def styled(e, rng):
     return e
 
 
+def named(e, defs):
+    if e["o"] == "n":
+        nm = ("KM%d" % -e["v"]) if e["v"] < 0 else "K%d" % e["v"]
+        defs[nm] = e["v"]
+        return {"o": "id", "nm": nm}
+    if "a" not in e:
+        return dict(e)
+    r = dict(e)
+    r["a"] = named(e["a"], defs)
+    if "b" in e:
+        r["b"] = named(e["b"], defs)
+    return r
+
+
 def run(ctx):
     ctx.build()
     quick = ctx.tier == "quick"
@@ -106,6 +120,16 @@ def run(ctx):
             npos += 1
         st.append({"k": "label", "nm": "fin"})
         R.add(st)
+        # position 7: the same trees over NAMED constants (every literal leaf replaced by an EQU name defined at the top); the names
+        # are shared by all trees of the program, so evaluating one expression must not disturb the value another one sees
+        defs, st7 = {}, []
+        for t in chunk:
+            e = named(t["e"], defs)
+            st7.append({"k": "data", "mn": "DD", "items": [{"t": "e", "e": e, "text": render.expr_min(e)}]})
+            npos += 1
+        st = [{"k": "org", "v": 0x7c00}] + [{"k": "equ", "nm": nm, "e": {"o": "n", "v": v}} for nm, v in sorted(defs.items())] + st7
+        st += [{"k": "data", "mn": "DD", "items": [{"t": "e", "e": {"o": "id", "nm": nm}}]} for nm in sorted(defs)] + [{"k": "label", "nm": "fin"}]
+        R.add(st)
     for t in div0:
         R.add([{"k": "data", "mn": "DD", "items": [{"t": "e", "e": t["e"], "text": render.expr_min(t["e"])}]}, {"k": "label", "nm": "fin"}])
     R.run()
@@ -120,7 +144,7 @@ def run(ctx):
            "statements_judged": sum(i["judged"] for i in ver["info"]), "programs_without_diagnostic": clean,
            "evaluations": npos, "distinct_nontrivial": len(trees),
            "rule": "TLC enumerates (Gen_Expr.tla) all trees of depth 1 and depth 2 (left- and right-deep)%s over literals %s and -%s and + - * / %% whose intermediate values fit int32%s; each tree is rendered with minimal parentheses, with redundant parentheses and with blanks around operators, "
-                   "decimal/hex literal styles chosen by seed, and placed in DD, MOV EAX,imm, [BX+disp], RESB and EQU positions; the observed value must equal Eval(tree)" % (
+                   "decimal/hex literal styles chosen by seed, and placed in DD, MOV EAX,imm, [BX+disp], RESB and EQU positions, and once more with every literal replaced by a shared EQU name; the observed value must equal Eval(tree)" % (
                        " (quick: depth 2 sampled by seed)" if quick else "", LITS, NEG, "" if quick else "; depth 3 balanced trees over a reduced literal set sampled by seed"),
            "model_checking": "Expr.tla: the grammar's AddExp/MultExp/PrimaryExp rules as a recursive-descent parser; Parse(Render(t)) = t for both rendering styles over all %d trees of depth <= 2 over %s" % (mcst["distinct"], "one leaf value" if quick else "two leaf values"),
            "samples": [R.cases[i]["src"] for i in (0, 1, 2)], "tlc_runs": ctx.tlc_stats[:5], "exhaustive": False}
